@@ -79,6 +79,40 @@ class Ctx:
         if not cond:
             raise AnalysisBroken(msg)
 
+    def need(self, cond, msg):
+        """inside `with ctx.section(rule):` - the anchored function exists but is not written in the
+        shape this rule reads: the rest of the section is skipped and reported as undecided"""
+        if not cond:
+            raise SoftBroken(msg)
+
+    def section(self, rule, node=None):
+        return _Section(self, rule, node)
+
+
+class SoftBroken(Exception):
+    pass
+
+
+class _Section:
+    def __init__(self, ctx, rule, node):
+        self.ctx, self.rule, self.node = ctx, rule, node
+
+    def __enter__(self):
+        return self
+
+    def __exit__(self, et, ev, tb):
+        if et is None:
+            return False
+        soft = issubclass(et, SoftBroken) or (issubclass(et, (NameError, UnboundLocalError)) and getattr(self.ctx, 'soft_skipped', False))
+        if not soft:
+            return False
+        self.ctx.soft_skipped = True
+        self.ctx.undecided(self.rule, 'structure', self.node or self.rule, 'the anchored code is not written in the shape this rule reads (%s): the remaining obligations of the rule are not decided' % ev)
+        d, m = self.ctx.rules.get(self.rule, ('', 0))
+        have = sum(1 for o in self.ctx.obs if o.rule == self.rule)
+        self.ctx.rules[self.rule] = (d, min(m, have))
+        return True
+
 
 def _loc(x):
     if isinstance(x, dict):
@@ -111,6 +145,13 @@ def finish(ctx, broken=None):
         counts = {}
         for o in ctx.obs:
             counts[o.rule] = counts.get(o.rule, 0) + 1
+        # an instance that was found but could not be decided still counts as found
+        und_rules = {}
+        for r_, k_, l_, w_ in getattr(ctx, 'undecided_obs', []):
+            und_rules[r_] = und_rules.get(r_, 0) + 1
+        for r_, n_ in und_rules.items():
+            # one undecided entry may stand for several instances of the pattern: do not let the floor fire
+            counts[r_] = max(counts.get(r_, 0) + n_, ctx.rules.get(r_, ('', 0))[1])
         for rid, (desc, mn) in ctx.rules.items():
             if counts.get(rid, 0) < mn:
                 broken = 'rule %s matched %d instance(s), fewer than the %d confirmed by reading the code (%s)' % (rid, counts.get(rid, 0), mn, desc)
